@@ -335,6 +335,44 @@ pub fn run_writer(j: &Value, t: &mut Trace, run_id: usize) -> Option<(Vec<u8>, V
     finev["written"] = json!(pos as i64);
     t.emit(finev);
     let bytes = cur.snapshot();
+    // the path-taking constructors (create + Options::overwrite) over an existing, longer file: the finished file is the same encoding
+    let mut path_same: Option<bool> = None;
+    if let (Some(dir), Ok(Ok(())), false, 0) = (j["path_dir"].as_str(), &fin, failed, start_offset) {
+        if pos == total_units {
+            let path = std::path::Path::new(dir).join(format!("w{}_{}.flac", std::process::id(), run_id));
+            std::fs::write(&path, vec![0xABu8; bytes.len() + 5000]).expect("prefill");
+            let r = catch(|| -> Result<(), String> {
+                let o = build_options(&j["opts"])?.overwrite();
+                match fe {
+                    "byte-le" => {
+                        let mut w: FlacByteWriter<_, LittleEndian> = FlacByteWriter::create(&path, o, rate, bps, channels, total).map_err(|e| e.to_string())?;
+                        w.write_all(&units_bytes).map_err(|e| e.to_string())?;
+                        w.finalize().map_err(|e| e.to_string())
+                    }
+                    "byte-be" => {
+                        let mut w: FlacByteWriter<_, BigEndian> = FlacByteWriter::create(&path, o, rate, bps, channels, total).map_err(|e| e.to_string())?;
+                        w.write_all(&units_bytes).map_err(|e| e.to_string())?;
+                        w.finalize().map_err(|e| e.to_string())
+                    }
+                    "sample" => {
+                        let mut w = FlacSampleWriter::create(&path, o, rate, bps, channels, total).map_err(|e| e.to_string())?;
+                        w.write(&pcm[..pos.min(pcm.len())]).map_err(|e| e.to_string())?;
+                        w.finalize().map_err(|e| e.to_string())
+                    }
+                    _ => {
+                        let ch = channels as usize;
+                        let cols: Vec<Vec<i32>> = (0..ch).map(|c| (0..pos).map(|i| pcm[i * ch + c]).collect()).collect();
+                        let mut w = FlacChannelWriter::create(&path, o, rate, bps, channels, total).map_err(|e| e.to_string())?;
+                        w.write(&cols).map_err(|e| e.to_string())?;
+                        w.finalize().map_err(|e| e.to_string())
+                    }
+                }
+            });
+            let on_disk = std::fs::read(&path).unwrap_or_default();
+            let _ = std::fs::remove_file(&path);
+            path_same = Some(matches!(r, Ok(Ok(()))) && on_disk == bytes);
+        }
+    }
     // hook events
     let mut enc = vec![];
     let mut finb = json!({"bytes": [0, 0], "samples": [0, 0], "seen": false});
@@ -376,6 +414,7 @@ pub fn run_writer(j: &Value, t: &mut Trace, run_id: usize) -> Option<(Vec<u8>, V
     let mut filev = json!({"ev": "file", "len": bytes.len() as i64, "md5": md5_hex(&bytes),
         "desc": describe_file(&bytes, start_offset), "enc": enc, "fin": finb, "branch": branch,
         "whole_frames": whole_frames as i64, "light": light, "const_frames": const_frames,
+
         "constant": (0..channels as usize).all(|c| whole.iter().skip(c).step_by(channels.max(1) as usize).all(|s| *s == whole[c])) && !whole.is_empty(),
         "pcm_md5": md5_hex(&samples_to_bytes(whole, bps.clamp(1, 32), false)),
         "len_before": before.len() as i64,
@@ -384,6 +423,9 @@ pub fn run_writer(j: &Value, t: &mut Trace, run_id: usize) -> Option<(Vec<u8>, V
             .map(|(_, p)| bytes.len() >= before.len() && bytes[p + start_offset..before.len()] == before[p + start_offset..])
             .unwrap_or(false),
         "prefix_intact": bytes.len() >= start_offset && bytes[..start_offset].iter().all(|b| *b == 0xEE)});
+    if let Some(b) = path_same {
+        filev["path_same"] = json!(b);
+    }
     if matches!(fin, Ok(Ok(()))) {
         // the crate's own reader as a smoke test that the writer "works" (C15); the real
         // losslessness oracle is C01/C02
